@@ -1,3 +1,4 @@
+import os
 from core import Fn, Target, VC
 
 TYPES = [
@@ -271,12 +272,24 @@ def done_fn():
               members=[(r'^size\|.*std::vector', 'nv_vec_size'), (r'^size\|.*(indices_t|tensor_vector_storage_t, long, 1|tensor_base_t<long, 1)', 'nv_indices_size')])
 
 
+def c10_predict_targets():
+    import importlib.util
+    path = os.path.join(os.path.dirname(os.path.abspath(__file__)), '..', 'C10', 'spec.py')
+    sp = importlib.util.spec_from_file_location('nv_c10_spec', path)
+    mod = importlib.util.module_from_spec(sp)
+    sp.loader.exec_module(mod)
+    return [t for t in mod.build('quick')['targets'] if t.name.endswith('_do_predict')]
+
+
 def build(tier):
     targets = [Target('early_stopping_done', [done_fn()], 'specs/C11/early_stopping.h')]
     targets += boost_targets()
     targets += fit_targets(done_fn(), [f() for f in boost_fns()])
     targets += average_targets()
     targets += util_targets() + store_targets() + merge_targets()
+    # "prediction is bias plus the SUM of the weak learners' predictions": every weak learner ADDS its tables to the outputs
+    # row (never overwrites): the do_predict contracts of specs/C10 are run here as well, by reference (same spec objects)
+    targets += c10_predict_targets()
     return {
         'targets': targets, 'vcs': [],
         'decided': ['early-stopping monitor transition = specification, for every observation and prior state; constructor (round 0, value +max, given snapshot) and round() / value() / values() accessors',
@@ -290,6 +303,7 @@ def build(tier):
                     'after merging every learner scaled by 1/folds exactly once; the final statistics stored by fit_result.store are evaluated on predictions of the FINAL model and selected by the samples given to fit(), stored once',
                     'gboost::mean_error / mean_loss: row 0 resp. 1, every listed sample exactly once in list order from 0.0, divided by max(#samples, 1)',
                     'ml::result_t::store(values, extra) / stats(value): error row -> m_optims row 0, loss row -> row 1; errors read row 0, losses row 1',
+                    'weak learner do_predict (stump, tables, affine, hinge, dtree; contracts of specs/C10 run here by reference): the selected table is ADDED to the outputs row of the sample exactly once, no other row is written -- so the model prediction is bias plus the sum of the learners\' predictions',
                     'try_merge step of wlearner::merge (sum preservation): do_try_merge adds the other tables exactly when feature and table dimensions agree, else changes nothing; '
                     'table_wlearner_t / affine_wlearner_t::try_merge attempt it only with a learner of the same kind, its feature and its tables, and for look-up tables only with equal label hashes AND equal hash -> table mapping'],
         'not_decided': ['statistics equal those recomputed from scratch by predicting (numeric equality through loss/predict)',
